@@ -1,3 +1,4 @@
+#![allow(unreachable_pub, dead_code, missing_docs, unused_imports, unused_variables, unused_mut, static_mut_refs, clippy::all)]
 // Kani harnesses for iroh-base/src/key.rs (C02: key / signature encodings).
 use super::*;
 use crate::verif_support as vs;
